@@ -15,7 +15,6 @@
 package cjk
 
 import (
-	"bytes"
 	"container/ring"
 	"unicode/utf8"
 
@@ -40,10 +39,11 @@ func (s *BigramFilter) Filter(input analysis.TokenStream) analysis.TokenStream {
 
 	for _, tokout := range input {
 		if tokout.Type == analysis.Ideographic {
-			runes := bytes.Runes(tokout.Term)
 			sofar := 0
-			for _, run := range runes {
-				rlen := utf8.RuneLen(run)
+			for sofar < len(tokout.Term) {
+				// the width comes from the bytes: an invalid byte occupies one
+				// byte, although it decodes to a three byte rune
+				_, rlen := utf8.DecodeRune(tokout.Term[sofar:])
 				token := &analysis.Token{
 					Term:         tokout.Term[sofar : sofar+rlen],
 					Start:        tokout.Start + sofar,
